@@ -1,4 +1,5 @@
 mod gen;
+mod oracles;
 mod proto;
 mod rng;
 mod stages;
@@ -18,6 +19,9 @@ pub struct Case {
     pub input: String,
     pub cfg: Cfg,
     pub cursors: Vec<u32>,
+    pub oracles: Vec<String>,
+    pub well_formed: bool,
+    pub w2: u32,
 }
 
 #[derive(Clone, Debug)]
@@ -88,6 +92,23 @@ fn run_case(c: &Case) -> CaseOut {
                 if strip(&real_out) != strip(c.input.as_bytes()) {
                     oracle_failures.push("c01: non-blank characters of the output differ from the input's".to_string());
                 }
+            }
+            for o in &c.oracles {
+                let f = match o.as_str() {
+                    "c02" if c.well_formed => oracles::c02_rescan(&c.input, &c.cfg),
+                    "c03" if c.well_formed => oracles::c03_idempotent(&c.input, &c.cfg),
+                    "c07" => oracles::c07_regions(&c.input, &c.cfg),
+                    "c08" => oracles::c08_canonical(&c.input, &c.cfg, c.well_formed),
+                    "c09" => oracles::c09_line_endings(&c.input, &c.cfg),
+                    "c10" if c.well_formed => oracles::c10_indentation(&c.input, &c.cfg),
+                    "c11" if c.well_formed => oracles::c11_wrap_column(&c.input, &c.cfg, c.cfg.wrap_column, c.w2),
+                    "c12" => oracles::c12_multiline_strings(&c.input, &c.cfg),
+                    "c14" => oracles::c14_lines(&c.input, c.well_formed),
+                    "c15" => oracles::c15_cursors(&c.input, &c.cfg, &c.cursors),
+                    _ => vec![],
+                };
+                bump(&mut stats, &format!("oracle_runs:{}", o), 1);
+                oracle_failures.extend(f);
             }
             bump(&mut stats, "tokens", snap.raw.len());
             bump(&mut stats, "lines", snap.lines.len());
@@ -188,6 +209,24 @@ fn gen_inputs(family: &str, rng: &mut Rng, n: usize, seeds: &[String]) -> Vec<St
             for _ in 0..n {
                 let m = *rng.pick(&[4, 12, 40, 120]);
                 v.push(byte_soup(rng, m));
+            }
+        }
+        "regions" => {
+            for _ in 0..n {
+                let budget = *rng.pick(&[5, 15, 40, 100]);
+                let p = gen_program(rng, budget);
+                let p = with_regions(&p, rng);
+                let o = LayoutOpts { comments: rng.chance(1, 3), directives: false, blank_lines: rng.chance(1, 2), crlf: rng.chance(1, 4), tabs: rng.chance(1, 3), tight: rng.chance(1, 4) };
+                let mut s = render_layout(&p, rng, o);
+                if rng.chance(1, 25) {
+                    s = s.replace("\r\n", "\n").replace('\n', "\r");
+                }
+                v.push(s);
+            }
+        }
+        "mlsfam" => {
+            for _ in 0..n {
+                v.push(mls_family_case(rng));
             }
         }
         "lexfam" => {
@@ -382,10 +421,11 @@ fn cmd_emit(a: &Args) {
     std::fs::create_dir_all(&out_dir).unwrap();
     stages::init_log();
     let seeds = load_seeds();
+    let oracle_list: Vec<String> = a.get("oracles", "").split(',').filter(|x| !x.is_empty()).map(|x| x.to_string()).collect();
     let mut rng = Rng::new(seed);
     let mut cases: Vec<Case> = vec![];
     for (input, cfg) in corpus_inputs(&stream) {
-        cases.push(Case { stream: stream.clone(), family: "corpus".into(), input, cfg, cursors: vec![] });
+        cases.push(Case { stream: stream.clone(), family: "corpus".into(), input, cfg, cursors: vec![], oracles: oracle_list.clone(), well_formed: false, w2: 80 });
     }
     let per = (count + families.len() - 1) / families.len().max(1);
     for fam in &families {
@@ -393,7 +433,25 @@ fn cmd_emit(a: &Args) {
         let inputs = gen_inputs(fam, &mut r, per, &seeds);
         for input in inputs {
             let cfg = if stream == "lex" { Cfg::default() } else { Cfg::random(&mut r) };
-            cases.push(Case { stream: stream.clone(), family: fam.clone(), input, cfg, cursors: vec![] });
+            let well_formed = matches!(fam.as_str(), "grammar" | "layout" | "seeds" | "seeds_sample" | "regions" | "mlsfam");
+            let mut cursors = vec![];
+            if oracle_list.iter().any(|o| o == "c15") {
+                let n = r.below(5);
+                for _ in 0..n {
+                    let mut p = match r.below(6) {
+                        0 => 0,
+                        1 => input.len(),
+                        2 => input.len() + r.range(1, 10),
+                        _ => r.below(input.len() + 1),
+                    };
+                    while p < input.len() && !input.is_char_boundary(p) {
+                        p += 1;
+                    }
+                    cursors.push(p as u32);
+                }
+            }
+            let w2 = *r.pick(&[10u32, 20, 30, 40, 60, 80, 100, 120, 160, 200]);
+            cases.push(Case { stream: stream.clone(), family: fam.clone(), input, cfg, cursors, oracles: oracle_list.clone(), well_formed, w2 });
         }
     }
     let t0 = Instant::now();
@@ -421,7 +479,7 @@ fn cmd_emit(a: &Args) {
                     bump(&mut stats, k, *v);
                 }
                 for f in &o.oracle_failures {
-                    failures.push(format!("{{\"kind\":\"oracle\",\"what\":{},\"cfg\":{},\"input_hex\":{}}}", json_str(f), json_str(&c.cfg.to_proto()), json_str(&proto::hex(c.input.as_bytes()))));
+                    failures.push(format!("{{\"kind\":\"oracle\",\"what\":{},\"cfg\":{},\"input_hex\":{},\"cursors\":{:?},\"family\":{}}}", json_str(f), json_str(&c.cfg.to_proto()), json_str(&proto::hex(c.input.as_bytes())), c.cursors, json_str(&c.family)));
                 }
                 if samples.len() < 5 && nontrivial(&c.input) && c.input.len() < 300 {
                     samples.push(format!("{{\"family\":{},\"cfg\":{},\"input\":{}}}", json_str(&c.family), json_str(&c.cfg.to_proto()), json_str(&c.input)));
@@ -429,7 +487,7 @@ fn cmd_emit(a: &Args) {
             }
             Err(e) => {
                 bump(&mut stats, "abnormal", 1);
-                failures.push(format!("{{\"kind\":\"abnormal\",\"what\":{},\"cfg\":{},\"input_hex\":{}}}", json_str(e), json_str(&c.cfg.to_proto()), json_str(&proto::hex(c.input.as_bytes()))));
+                failures.push(format!("{{\"kind\":\"abnormal\",\"what\":{},\"cfg\":{},\"input_hex\":{},\"cursors\":{:?},\"family\":{}}}", json_str(e), json_str(&c.cfg.to_proto()), json_str(&proto::hex(c.input.as_bytes())), c.cursors, json_str(&c.family)));
             }
         }
     }
